@@ -133,6 +133,37 @@ Definition b2_selector (hs : list shost) (t : trie) (keys : list nat) : trie :=
 Definition build2 (hs : list shost) (selectors : list (list nat)) : trie :=
   fold_left (b2_selector hs) selectors empty_trie.
 
+(* ---------------- filterHosts of the pre-indexed builder, shape read from the source (Gen/SubsetTokens.v) --------
+   The inverted index maps a (key, value) pair to the set of positions of the hosts carrying it; a pair is KNOWN when
+   that set exists, i.e. when some host carries the pair.  filterHosts(kvs):
+     FHAllPairs    : no pairs => all hosts; a pair that is not known => no host; otherwise the intersection of the
+                     sets of ALL pairs (hosts, in host-set order, carrying every pair)
+     FHSkipUnknown : pairs that are not known are skipped; no known pair => no host; otherwise the intersection of
+                     the sets of the known pairs only
+   (the Sparse sets themselves are modelled by their meaning) *)
+Inductive fh_shape := FHAllPairs | FHSkipUnknown.
+Definition pair_known (hs : list shost) (p : kv) : bool := existsb (fun h => pair_ok (smeta h) p) hs.
+Definition filter_hosts_ix (m : fh_shape) (hs : list shost) (kvs : path) : list shost :=
+  match kvs with
+  | [] => hs
+  | _ =>
+      match m with
+      | FHAllPairs => if forallb (pair_known hs) kvs then filter (host_matches kvs) hs else []
+      | FHSkipUnknown =>
+          match filter (pair_known hs) kvs with
+          | [] => []
+          | ks => filter (host_matches ks) hs
+          end
+      end
+  end.
+Definition b2x_selector (m : fh_shape) (hs : list shost) (t : trie) (keys : list nat) : trie :=
+  match keys with
+  | [] => t
+  | _ => fold_left (fun t kvs => insert kvs (set_if_nonempty (filter_hosts_ix m hs kvs)) t) (combos hs keys) t
+  end.
+Definition build2x (m : fh_shape) (hs : list shost) (selectors : list (list nat)) : trie :=
+  fold_left (b2x_selector m hs) selectors empty_trie.
+
 (* ---------------- fallback ---------------- *)
 Inductive fallback_policy := NoFallBack | AnyEndPoint | DefaultSubset.
 Definition fallback1 (hs : list shost) (pol : fallback_policy) (dflt : path) : option (list shost) :=
@@ -160,6 +191,9 @@ Definition generate_subset_keys (cfg : list (list nat)) : list (list nat) :=
 Record sslb := mkS { s_hosts : list shost; s_trie : trie; s_fallback : option (list shost) }.
 Definition make1 hs selectors pol dflt := mkS hs (build1 hs selectors) (fallback1 hs pol dflt).
 Definition make2 hs selectors pol dflt := mkS hs (build2 hs selectors) (fallback2 hs pol dflt).
+Definition fallback2x (m : fh_shape) (hs : list shost) (pol : fallback_policy) (dflt : path) : option (list shost) :=
+  match pol with NoFallBack => None | AnyEndPoint => Some hs | DefaultSubset => Some (filter_hosts_ix m hs dflt) end.
+Definition make2x m hs selectors pol dflt := mkS hs (build2x m hs selectors) (fallback2x m hs pol dflt).
 
 (* criteria: None = nil MetadataMatchCriteria *)
 Definition first_try (b : sslb) (criteria : option path) : option (list shost) :=
@@ -213,18 +247,18 @@ Fixpoint sels_eqb (a b : list (list nat)) : bool :=
 Definition obs_ok (b : sslb) (c : option path) (o : ss_obs) : bool :=
   match o with (n, e, ids) =>
     Nat.eqb (host_num b c) n && Bool.eqb (is_exists b c) e && nat_list_eqb (sort_ids (choose_set b c)) ids end.
-Definition ss_case_ok (k : ss_case) : bool :=
+Definition ss_case_ok (m : fh_shape) (k : ss_case) : bool :=
   match k with
   | (hs, cfg, observed, pol, dflt, qs) =>
       let selectors := generate_subset_keys cfg in
       let b1 := make1 hs selectors pol dflt in
-      let b2 := make2 hs selectors pol dflt in
+      let b2 := make2x m hs selectors pol dflt in
       sels_eqb selectors observed &&
       forallb (fun q => match q with (c, o1, o2) => obs_ok b1 c o1 && obs_ok b2 c o2 end) qs
   end.
-Fixpoint ss_mismatches_from (i : nat) (l : list ss_case) : list nat :=
+Fixpoint ss_mismatches_from (m : fh_shape) (i : nat) (l : list ss_case) : list nat :=
   match l with
   | [] => []
-  | x :: l' => if ss_case_ok x then ss_mismatches_from (S i) l' else i :: ss_mismatches_from (S i) l'
+  | x :: l' => if ss_case_ok m x then ss_mismatches_from m (S i) l' else i :: ss_mismatches_from m (S i) l'
   end.
-Definition ss_mismatches (l : list ss_case) : list nat := ss_mismatches_from 0 l.
+Definition ss_mismatches (m : fh_shape) (l : list ss_case) : list nat := ss_mismatches_from m 0 l.
